@@ -238,3 +238,47 @@ def control_in_operand(n, operand=False) -> bool:
 
 def prog_control_in_operand(prog: Program) -> bool:
     return control_in_operand(prog.main) or any(control_in_operand(s.body) for s in prog.subs)
+
+
+def instrument(prog: Program) -> Program:
+    """neighbour of a program in which control flow is observable: a distinct Log after every statement
+    of every Seq and at the head of every loop body / branch (application mode, version >= 5)"""
+    counter = [0]
+
+    def mark():
+        counter[0] += 1
+        return ("op", "Log", [("bytes", b"@" + counter[0].to_bytes(2, "big"))])
+
+    def block(n):
+        """statement-position node -> same node preceded by a marker"""
+        return ("seq", [mark(), go(n)])
+
+    def go(n):
+        if not (isinstance(n, tuple) and n and isinstance(n[0], str)):
+            return n
+        t = n[0]
+        if t == "seq":
+            items = n[1]
+            if not items:
+                return n
+            has_val = type_of(n) != N
+            out = []
+            for i, x in enumerate(items):
+                out.append(go(x))
+                if not (has_val and i == len(items) - 1) and x[0] not in ("break", "continue", "ret", "approve", "reject", "exit", "err"):
+                    out.append(mark())
+            if has_val:
+                # markers must not follow the value
+                out = [y for y in out[:-1]] + [out[-1]] if out[-1][0] != "op" or out[-1][1] != "Log" else out
+            return ("seq", out)
+        if t == "if" and type_of(n) == N:
+            return ("if", n[1], block(n[2]), block(n[3]) if n[3] is not None else None)
+        if t == "cond" and type_of(n) == N:
+            return ("cond", [(c, block(b)) for c, b in n[1]])
+        if t == "while":
+            return ("while", n[1], block(n[2]))
+        if t == "for":
+            return ("for", n[1], n[2], n[3], block(n[4]))
+        return n
+
+    return clone(prog, main=go(prog.main), bodies={s.sid: go(s.body) for s in prog.subs})
